@@ -1008,6 +1008,20 @@ class FunctionVerifier:
             self.view_copies.add(a_.loc)
             self.view_src[a_.loc] = (base.loc, o)
             return a_
+        if len(elts) == 2 and len(shp) == 2 and isinstance(elts[0], ast.Slice) and elts[0].lower is None and elts[0].upper is None and elts[0].step is None and isinstance(elts[1], ast.Slice) and elts[1].step is None:
+            # a[:, lo:hi] on a 2-D array: all rows, a contiguous range of columns
+            s = elts[1]
+            lo = self.as_int(self.ev(s.lower, st, prog)).e if s.lower is not None else z3.IntVal(0)
+            hi = self.as_int(self.ev(s.upper, st, prog)).e if s.upper is not None else shp[1]
+            if prog:
+                self.oblige("index-in-bounds", self.stmt_anchor(node), z3.And(lo >= 0, lo <= hi, hi <= shp[1]), st, node)
+            k = z3.Int("view!k0")
+            c_ = z3.Int("view!k1")
+            comps = {c: z3.Lambda([k], z3.Lambda([c_], z3.Select(z3.Select(nested_select(t, base.prefix), k), c_ + lo))) for c, t in o.comps.items()}
+            a_ = self.new_loc(st, o.dtype, [shp[0], z3.simplify(hi - lo)], comps, name="cols")
+            self.view_copies.add(a_.loc)
+            self.view_src[a_.loc] = (base.loc, o)
+            return a_
         # general case: a mix of integer indices and full slices `:` -> array value over the sliced axes
         if len(elts) <= len(shp) and all((isinstance(e, ast.Slice) and e.lower is None and e.upper is None and e.step is None) or not isinstance(e, ast.Slice) for e in elts):
             idx = []
